@@ -24,5 +24,6 @@ package validation
 
 // ------------------------------------------------------------------ C16: the real-client-IP parser exists only in reverse-proxy mode
 //@ func Validate
+//@ shallow
 //@ prop C16
 //@ at call SetRealClientIPParser assert[parser-only-in-reverse-proxy-mode] o.ReverseProxy
